@@ -65,10 +65,13 @@ func plan(seed int64, tier string) []vrt.Case {
 	if tier == "thorough" {
 		nAPI, nRaw, per = 1200, 300, 1000
 	}
-	for i := 0; i < nAPI; i++ {
+	// one case of every kind first (they become the evidence samples), then the rest
+	add("api", 0, per)
+	add("raw", 0, per)
+	for i := 1; i < nAPI; i++ {
 		add("api", i, per)
 	}
-	for i := 0; i < nRaw; i++ {
+	for i := 1; i < nRaw; i++ {
 		add("raw", i, per)
 	}
 	return cs
@@ -169,10 +172,11 @@ func errClass(err error) string {
 		s = s[:i]
 	}
 	s = strings.TrimSpace(strings.Map(func(c rune) rune {
-		if c >= '0' && c <= '9' {
-			return -1
+		switch {
+		case c >= 'a' && c <= 'z', c >= 'A' && c <= 'Z', c == ' ', c == '-':
+			return c
 		}
-		return c
+		return -1
 	}, s))
 	if len(s) > 40 {
 		s = s[:40]
